@@ -73,7 +73,7 @@ class CurvatureCorrection(darsia.BaseCorrection):
             # Read config directly from argument list
             if isinstance(config, dict):
                 self.config = copy.deepcopy(config)
-            elif isinstance(config, str):
+            elif isinstance(config, (str, Path)):
                 with open(Path(config), "r") as openfile:
                     self.config = json.load(openfile)
         else:
